@@ -3,6 +3,7 @@
 
 mod ack;
 mod drivers;
+mod storedrv;
 mod tree;
 mod world;
 
@@ -125,6 +126,7 @@ fn main() {
         "natural" => drivers::natural(&args),
         "explore" => drivers::explore(&args),
         "ack" => ack::run(&args),
+        "store" => storedrv::run(&args),
         "tree" => drivers::trees(&args),
         _ => {
             eprintln!("usage: harness <random|replay|tree> --models F --out F [--seed N] ...");
